@@ -6,10 +6,14 @@ constructors with the `n_pol` table, dtype lattice, the four noise branches of `
 CPython `slice.indices`, integer indexing, `copy`.  Sample values live in an arbitrary carrier `α`
 (`AddCommGroup α` where sums are compared); the driver runs the same definitions at the Gaussian integers.
 
+The domain transform `x(domain, shift)` is composed with C02's model: on complex carriers its per-row map is
+`Fourier.callRow`, its payload is `Fourier.call` of the payload (`transform_is_fourier_call`), and the row-length law
+used by `eval_shape` over ℝ is C02's `shift_length`.
+
 Not theorems (runtime monitors / oracle of harness/props/c01.py): operands bit-for-bit unchanged, no shared
-memory, domain transforms.
+memory; float rounding of the FFT.
 -/
-import OptiVerif.Lemmas.ContainerAlg
+import OptiVerif.Lemmas.ContainerFourier
 
 namespace OptiVerif.Props.C01
 open OptiVerif OptiVerif.Container
@@ -74,7 +78,7 @@ theorem npol_defaults_documented :
 /-- **every expression of every depth** that evaluates without raising yields a well-formed object
     (non-empty rows of equal length, noise of exactly the signal's shape, `n_pol` = number of rows, electrical = one
     row), for an environment of well-formed objects -/
-theorem eval_wf [Add α] [Sub α] [Neg α] [Mul α] [DropIm α] (ρ : Env α) (hρ : ∀ x ∈ ρ, WF x) (e : Expr α)
+theorem eval_wf [Add α] [Sub α] [Neg α] [Mul α] [DropIm α] [Xform α] (ρ : Env α) (hρ : ∀ x ∈ ρ, WF x) (e : Expr α)
     {s : Sig α} (h : eval ρ e = .ok s) : WF s := by
   induction e generalizing s with
   | var i =>
@@ -110,11 +114,15 @@ theorem eval_wf [Add α] [Sub α] [Neg α] [Mul α] [DropIm α] (ρ : Env α) (h
     obtain ⟨x, hx, hf⟩ := bind1_ok h
     obtain ⟨_, _, _, _, _, _, w⟩ := getSlice_spec (iha hx) hf
     exact w
+  | transform a d sh _ =>
+    simp only [eval] at h
+    obtain ⟨x, _, hf⟩ := bind1_ok h
+    exact (transform_wf_any hf).1
 
 /-- class, polarisation count and length of the value of an expression are the statically predicted ones
     (`sCls`, `sPol`, `sLen` never look at sample values): same class as the left-most operand, polarisation
     count of the operands, length of the left operand / number of slice indices / 1 for an integer index -/
-theorem eval_shape [Add α] [Sub α] [Neg α] [Mul α] [DropIm α] (ρ : Env α) (hρ : ∀ x ∈ ρ, WF x) (e : Expr α)
+theorem eval_shape [Add α] [Sub α] [Neg α] [Mul α] [DropIm α] [Xform α] [LawfulXform α] (ρ : Env α) (hρ : ∀ x ∈ ρ, WF x) (e : Expr α)
     {s : Sig α} (h : eval ρ e = .ok s) :
     s.cls = sCls ρ e ∧ s.npol = sPol ρ e ∧ s.sig.count = sPol ρ e ∧ s.len = sLen ρ e := by
   suffices hh : s.cls = sCls ρ e ∧ s.npol = sPol ρ e ∧ s.len = sLen ρ e by
@@ -177,6 +185,16 @@ theorem eval_shape [Add α] [Sub α] [Neg α] [Mul α] [DropIm α] (ρ : Env α)
     obtain ⟨ca, pa, la⟩ := iha hx
     simp only [sCls, sPol, sLen]
     exact ⟨by rw [hs, ← ca], by rw [hs, ← pa, wx.npol_rows], by rw [l, sliceIdx_length hi, la]⟩
+  | transform a d sh iha =>
+    simp only [eval] at h
+    obtain ⟨x, hx, hf⟩ := bind1_ok h
+    have wx := eval_wf ρ hρ a hx
+    obtain ⟨_, d', _, hs⟩ := transform_wf_any hf
+    obtain ⟨ca, pa, la⟩ := iha hx
+    simp only [sCls, sPol, sLen]
+    refine ⟨by rw [hs, ← ca], by rw [hs, ← pa, wx.npol_rows], ?_⟩
+    rw [hs, ← la]
+    exact Rows.mapL_len_of (LawfulXform.length_row d' sh) _
 
 /-! ### operators: total field, noise, acceptance -/
 
@@ -375,6 +393,56 @@ theorem copy_all [DropIm α] {a : Sig α} (ha : WF a) :
   rw [e1, e2]
   exact build_of ha.valid ha.elec_one ha.noise_shape
 
+/-! ### domain transforms `x('w')`, `x('f')`, `x('t')`, with and without shift (composition with C02) -/
+
+/-- whatever the per-row transform computes, a call `x(domain, shift)` that returns yields a well-formed object of
+    the same class with dtype complex (it goes through `self.__class__(signal[, noise])`); any other domain string is
+    a ValueError -/
+theorem transform_wf [DropIm α] [Xform α] {a s : Sig α} {d : Option Fourier.Dom} {sh : Bool}
+    (h : transform a d sh = .ok s) : WF s ∧ s.cls = a.cls ∧ s.dt = .complex ∧ s.sig.count = a.sig.count := by
+  obtain ⟨w, d', _, hs⟩ := transform_wf_any h
+  exact ⟨w, by rw [hs], by rw [hs], by rw [hs]; simp⟩
+
+theorem transform_bad_domain [DropIm α] [Xform α] (a : Sig α) (sh : Bool) :
+    transform a none sh = .error .ValueError := rfl
+
+/-- on a complex carrier the payload of `x(domain, shift)` IS `Fourier.call domain shift` of the payload of `x`
+    (C02's model): signal and noise rows, every polarisation -/
+theorem transform_is_fourier_call {R : Type} [Add R] [Sub R] [Mul R] [Div R] [Neg R] [NatCast R] [Transc R]
+    {a s : Sig (Cx R)} {d : Fourier.Dom} {sh : Bool} (h : transform a (some d) sh = .ok s) :
+    s.payload = Fourier.call d sh a.payload := transform_payload h
+
+/-- **both domains, both shift settings**: over ℝ a well-formed object is always accepted and the result is a
+    well-formed object of the same class, `n_pol`, row count, length and noise presence (row lengths by C02's
+    `shift_length`, via the `LawfulXform (Cx ℝ)` instance) -/
+theorem transform_shape {a : Sig (Cx ℝ)} (ha : WF a) (d : Fourier.Dom) (sh : Bool) :
+    ∃ s, transform a (some d) sh = .ok s ∧ WF s ∧ s.cls = a.cls ∧ s.npol = a.npol ∧ s.sig.count = a.sig.count ∧
+      s.len = a.len ∧ s.noise.isSome = a.noise.isSome ∧ s.dt = .complex := transform_spec ha d sh
+
+/-- the same shape facts read off the payload with C02's own theorems `call_shape` and `call_noise_iff` -/
+theorem transform_payload_shape {a s : Sig (Cx ℝ)} {d : Fourier.Dom} {sh : Bool}
+    (h : transform a (some d) sh = .ok s) :
+    s.payload.sig.map List.length = a.payload.sig.map List.length ∧
+      s.payload.noise.isSome = a.payload.noise.isSome := by
+  rw [transform_payload h]
+  exact ⟨Props.C02.call_shape d sh a.payload, Props.C02.call_noise_iff d sh a.payload⟩
+
+/-- a round trip `x('w')('t')` gives back the payload of `x` (C02's `call_roundtrip`, lifted to objects) -/
+theorem transform_roundtrip_payload {a s t : Sig (Cx ℝ)} (h1 : transform a (some .w) false = .ok s)
+    (h2 : transform s (some .t) false = .ok t) : t.payload = a.payload := by
+  rw [transform_payload h2, transform_payload h1]
+  exact Props.C02.call_roundtrip a.payload
+
+/-- the exact objects of the differential run (Gaussian integers), embedded in `Cx ℝ`, transform with the same
+    class / `n_pol` / length / noise presence -/
+theorem transform_of_exact {a : Sig (Cx Int)} (ha : WF a) (d : Fourier.Dom) (sh : Bool) :
+    ∃ s, transform (a.mapV embR) (some d) sh = .ok s ∧ WF s ∧ s.cls = a.cls ∧ s.npol = a.npol ∧
+      s.len = a.len ∧ s.noise.isSome = a.noise.isSome := by
+  obtain ⟨s, h, w, c, p, _, l, n, _⟩ := transform_shape (mapV_wf embR ha) d sh
+  refine ⟨s, h, w, c, p, ?_, ?_⟩
+  · rw [l]; cases hs : a.sig <;> simp [Sig.len, Sig.mapV, Rows.mapV, Rows.len, hs]
+  · rw [n]; cases hn : a.noise <;> simp [Sig.mapV, hn]
+
 /-! ### CPython slice arithmetic -/
 
 /-- the normalised `(start, stop, step)` of `slice.indices(n)`: a zero step is the only error (ValueError);
@@ -475,6 +543,13 @@ example : ∃ s, getSlice xa none none (some (-2)) = .ok s ∧ s.sig = .two [z 3
     rw [e] at hi; injection hi with hi; exact hi.symm
   subst this
   exact ⟨s, hs, by rw [hsig]; rfl⟩
+
+/-- a program interleaving `+`, a slice and two domain transforms, over ℝ: `eval_wf` / `eval_shape` apply -/
+example (ρ : Env (Cx ℝ)) (hρ : ∀ x ∈ ρ, WF x) {s : Sig (Cx ℝ)}
+    (h : eval ρ (.transform (.slice (.add (.transform (.var 0) (some .w) true) (.var 1)) none none (some 2))
+      (some .t) false) = .ok s) :
+    WF s ∧ s.len = sliceLen none none (some 2) (sLen ρ (.var 0)) :=
+  ⟨eval_wf ρ hρ _ h, (eval_shape ρ hρ _ h).2.2.2⟩
 
 end examples
 
